@@ -61,11 +61,16 @@ def parse_concatenated_json(s):
 
 TRANSPARENT = {"ImplicitCastExpr", "ParenExpr", "ExprWithCleanups", "MaterializeTemporaryExpr", "CXXBindTemporaryExpr", "CXXFunctionalCastExpr", "ConstantExpr", "CXXStaticCastExpr", "SubstNonTypeTemplateParmExpr"}
 BINOPS = {"+": ast.Add, "-": ast.Sub, "*": ast.Mult, "/": ast.Div}
+EIGEN_OPS = {"*": "cxx_mul", "+": "cxx_add", "-": "cxx_sub"}
 CMPOPS = {"<": ast.Lt, "<=": ast.LtE, ">": ast.Gt, ">=": ast.GtE, "==": ast.Eq, "!=": ast.NotEq}
 
 
 class Lowerer:
-    def __init__(self, source_text, flags=None, method_resolver=None, self_name="self"):
+    def __init__(self, source_text, flags=None, method_resolver=None, self_name="self", eigen=False):
+        """eigen=True (generated filter code / Eigen helpers): every `*` becomes cxx_mul (matrix product on matrices),
+        `.transpose()` / `.inverse()` become cxx_transpose / cxx_inverse, qualified static callees keep their qualification
+        (A::B::f -> A_B.f), `(expr)(i, j)` is element access, positional braced returns take their designators from the source."""
+        self.eigen = eigen
         self.src_text = source_text
         self.flags = flags or {}
         self.resolve_method = method_resolver
@@ -99,6 +104,12 @@ class Lowerer:
             return ast.Constant(bool(n["value"]))
         if k == "DeclRefExpr":
             name = n["referencedDecl"]["name"]
+            if self.eigen and n["referencedDecl"].get("kind") in ("CXXMethodDecl", "FunctionDecl", "VarDecl"):
+                t = re.sub(r"\s+", "", self.text(n))
+                if t.startswith("std::"):
+                    t = t[5:]
+                if "::" in t and re.fullmatch(r"[\w:]+", t):
+                    return self.dependent_name(t)
             return ast.Name(self.rename(name), ast.Load())
         if k == "UnresolvedLookupExpr":
             name = n.get("name")
@@ -134,6 +145,8 @@ class Lowerer:
         if k == "BinaryOperator":
             op = n["opcode"]
             a, b = self.expr(inner[0]), self.expr(inner[1])
+            if op in EIGEN_OPS and self.eigen:
+                return ast.Call(ast.Name(EIGEN_OPS[op], ast.Load()), [a, b], [])
             if op in BINOPS:
                 return ast.BinOp(a, BINOPS[op](), b)
             if op in CMPOPS:
@@ -152,7 +165,12 @@ class Lowerer:
             if ck.get("kind") == "LambdaExpr":
                 fname = self.lower_lambda(ck)
                 return ast.Call(ast.Name(fname, ast.Load()), args, [])
+            if self.eigen and ck.get("kind") in ("BinaryOperator", "CXXOperatorCallExpr", "CallExpr", "CXXMemberCallExpr"):
+                # (matrix expression)(i, j): element access
+                return ast.Subscript(self.expr(callee), ast.Tuple(args, ast.Load()) if len(args) != 1 else args[0], ast.Load())
             f = self.expr(callee)
+            if self.eigen and isinstance(f, ast.Attribute) and f.attr in ("transpose", "inverse") and not args:
+                return ast.Call(ast.Name("cxx_" + f.attr, ast.Load()), [f.value], [])
             if isinstance(f, tuple) and f[0] == "unresolved_member":
                 target = self.resolve_method(f[1], len(args)) if self.resolve_method else f[1]
                 return ast.Call(ast.Attribute(ast.Name("self", ast.Load()), target, ast.Load()), args, [])
@@ -162,6 +180,8 @@ class Lowerer:
             args = [self.expr(a) for a in inner[1:]]
             if opname in BINOPS and len(args) == 2:
                 # Eigen: * is the matrix product
+                if opname in EIGEN_OPS and self.eigen:
+                    return ast.Call(ast.Name(EIGEN_OPS[opname], ast.Load()), args, [])
                 if opname == "*":
                     return ast.BinOp(args[0], ast.MatMult(), args[1])
                 return ast.BinOp(args[0], BINOPS[opname](), args[1])
@@ -176,6 +196,11 @@ class Lowerer:
             raise Unsupported(f"C++ operator{opname}")
         if k == "InitListExpr":
             kws = []
+            if self.eigen and inner and all(c.get("kind") != "DesignatedInitExpr" for c in inner):
+                # semantic form of a designated list in non-dependent code: designators are read from the source text
+                names = re.findall(r"\.(\w+)\s*=(?!=)", self.text(n))
+                if len(names) == len(inner):
+                    return ast.Call(ast.Name("mk_struct", ast.Load()), [], [ast.keyword(nm, self.expr(c)) for nm, c in zip(names, inner)])
             for c in inner:
                 if c.get("kind") == "DesignatedInitExpr":
                     t = self.text(c)
@@ -199,6 +224,8 @@ class Lowerer:
         if k == "LambdaExpr":
             fname = self.lower_lambda(n)
             return ast.Name(fname, ast.Load())
+        if k == "ArraySubscriptExpr":
+            return ast.Subscript(self.expr(inner[0]), self.expr(inner[1]), ast.Load())
         if k == "ConditionalOperator":
             return ast.IfExp(self.expr(inner[0]), self.expr(inner[1]), self.expr(inner[2]))
         raise Unsupported(f"C++ expression kind {k}")
